@@ -5,10 +5,26 @@ props = [json.loads(l) for l in open('/verif/properties.jsonl')]
 ids = [p["id"] for p in props]
 hooks_commits = [l.split()[0] for l in subprocess.run(["git", "-C", "/repo", "log", "--format=%h %s"], capture_output=True, text=True).stdout.splitlines() if " verif-hook:" in l or l.split(" ", 1)[1].startswith("verif-hook")]
 CLAIMED = {
+ "C06": dict(engine="pipeline", design="5/C06, 3.5, 3.7",
+   text="Pipeline.tla and Ops.tla model the parser's two retry fixpoints, the removal cascade, the request-body reference walk and per-operation assembly with every action total; TLC checks termination (liveness under fairness, no state constraint) and the ranking laws on all 46,656 three-schema documents and all operations of the universe; every enumerated case is replayed through the real parser under a wall-clock limit. Every JSON-pointer node of repository + concretised documents is replaced by 20 junk values / deleted / duplicated (fault model from the spec: opaque shapes) and the recorded hook traces must be behaviours of PipelineTrace.tla; 18 byte-level loader classes x JSON/YAML x path/URL run through the real CLI and are validated against FsHistory.tla (ExitLaw, RejectedWritesNothing) by FsTrace.tla.",
+   note="Exhaustive inside the universes; node corruption is sampled on the large repository documents in the quick tier. A 4-30 s wall-clock limit stands for 'hangs'. Trusted: CPython signal timers, loopback HTTP server as URL source.",
+   technique="TLC model checking (safety + liveness) of the parser state machines, replay of all enumerated cases, spec-driven fault injection with trace validation"),
+ "C07": dict(engine="pipeline", design="5/C07, 3.5",
+   text="Law Census of Pipeline.tla (every object/enum component has a class or a diagnostic) and of Ops.tla (an operation is generated or named METHOD path in a diagnostic; every documented status and request media type of a generated operation is handled or named in a warning) checked by TLC on the operational models; every enumerated document/operation is replayed through the real parser with a census oracle on GeneratorData+diagnostics, and a one-factor-at-a-time sample is rendered and the census repeated on the output tree (exports, files, status branches); name-collision pairs found by Names.tla are checked for two-into-one on the tree.",
+   note="Exhaustive inside the universes (3 schemas x 15 kinds x targets; <=1-2 parameters x 6 path-item parameters x 14 bodies x <=2 responses). 'Identifies' = reference path / METHOD path / status key / media type occurs in header, detail or printed data.",
+   technique="TLC model checking of census laws + exhaustive replay of enumerated cases into the real parser and renderer"),
+ "C08": dict(engine="pipeline", design="5/C08, 3.5",
+   text="Pipeline.tla: declarative Affected = least fixpoint of Bad under the document's own $ref graph; TLC checks Containment / ImportsClosed / NoFalseAlarm on the operational model (which reproduces dependencies surviving failed attempts, alias re-processing, etc.) for every fault combination over 3 schemas. Every document is replayed faulty vs repaired through the real parser (unaffected items must survive, affected ones must be absent and diagnosed); a stratified sample is rendered, compared byte-wise per module and every remaining module is imported in a fresh interpreter; hook traces of the real removal cascade (TLC documents + larger random ones) are validated by PipelineTrace.tla (removed set = dependency closure of the failed roots).",
+   note="Exhaustive over the 46,656-document universe at parser level; rendering sampled (quick 160 pairs). 'Document without the bad piece' = bad schemas replaced by good twins.",
+   technique="TLC model checking of containment laws + differential replay (faulty vs repaired) + trace validation of the removal cascade"),
  "C09": dict(engine="names", design="5/C09, 3.1",
-   text="Names.tla transcribes utils.py name derivation and the three conflict-resolution loops; TLC enumerates every name (<=3/4 tokens over 14 character-class representatives) and every ordered name set per scope, checks N1 (valid identifier) / N2 (NFKC-injective per scope or error) / N3 (termination) on the model, and every enumerated case is replayed through the real functions and the real parser with a model-independent oracle (isidentifier, not keyword, NFKC-distinct or diagnostic). Every Unicode code point is swept through the real functions in 3 positions; real outputs on longer random names are validated by TLC (NamesTrace.tla).",
+   text="Names.tla transcribes utils.py name derivation and the conflict-resolution loops (model attributes incl. allOf inheritance and the retry-with-mutation quirk, enum member keys, operation parameters, class/module scope incl. nested inline classes, one tag's operations); TLC enumerates every name (<=3/4 tokens over 14 character-class representatives) and every ordered name set per scope, checks N1 (valid identifier) / N2 (NFKC-injective per scope or error) / N3 (termination) on the model, and every enumerated case is replayed through the real functions and the real parser with a model-independent oracle (isidentifier, not keyword, NFKC-distinct or diagnostic). Every Unicode code point is swept through the real functions in 3 positions; real outputs on longer random names are validated by TLC (NamesTrace.tla).",
    note="Bounded by the token alphabet/lengths for sets of names; exhaustive over single code points at function level. Trusted: CPython isidentifier/keyword, token<->character table (signature coverage is measured each run).",
-   technique="TLA+ transcription + TLC exhaustive small-scope enumeration, replayed into the real code; trace validation of real outputs"),
+   technique="TLA+ transcription + TLC exhaustive small-scope enumeration replayed into the real code; trace validation of real outputs"),
+ "C19": dict(engine="fshistory", design="5/C19, 3.7",
+   text="FsHistory.tla unfolds each generate command into the real steps (load, validate, mkdir, package, metadata, rmtree+write models, client, rmtree+write api, hooks, exit) over an abstract tree with user files and a sibling; TLC checks Confined, NoClobber(+Step), Converges, NoStale, ExitLaw, RejectedWritesNothing(+Step) and EveryCommandExits on every history of <=2/3 commands over 5 documents x overwrite x fail-on-warning x 3 hook outcomes. A stratified sample of TLC-emitted histories is replayed through the real CLI under all four metadata flavours inside a sentinel-filled sandbox with whole-sandbox byte snapshots (the oracle is the property statement: fresh generation + untouched user files, incl. user files named like another flavour's metadata); the real step events (hooks) are validated against the spec's actions by FsTrace.tla; hostile titles/tags/schema/operation names (separators, dot segments, absolute paths) with a derived output path; Names.tla law N4 on path components.",
+   note="TLC exhaustive to the history depth; replay is a stratified sample (quick 140 histories). Convergence only for same names and flavour, as stated.",
+   technique="TLC model checking of command histories + replay of emitted histories into the real CLI with snapshot oracles + step-trace validation"),
 }
 checks = []
 for pid, c in CLAIMED.items():
